@@ -257,9 +257,34 @@ func runWorker(a []string) int {
 		var res *core.Result
 		done := make(chan struct{})
 		go func() { res = core.SafeExec(p, t); close(done) }()
-		select {
-		case <-done:
-		case <-time.After(time.Duration(runTimeout) * time.Second):
+		// A run is taken for hung when its time limit has passed and the process has stopped making progress
+		// (less than a second of CPU time over the last 30 s of wall time: blocked), or when five times the limit
+		// has passed (busy but endless). On a loaded machine a slow run keeps consuming CPU and is left alone.
+		hung := false
+		t0run := time.Now()
+		cpuAt, cpuThen := time.Now(), core.CPUSeconds()
+	waitRun:
+		for {
+			select {
+			case <-done:
+				break waitRun
+			case <-time.After(5 * time.Second):
+				el := time.Since(t0run)
+				if time.Since(cpuAt) >= 30*time.Second {
+					now := core.CPUSeconds()
+					if el > time.Duration(runTimeout)*time.Second && now-cpuThen < 1 {
+						hung = true
+						break waitRun
+					}
+					cpuAt, cpuThen = time.Now(), now
+				}
+				if el > 5*time.Duration(runTimeout)*time.Second {
+					hung = true
+					break waitRun
+				}
+			}
+		}
+		if hung {
 			if mt := core.ReadCaseMarker(markerPath(prop, w)); mt != nil {
 				mt.Property, mt.Seed, mt.Tier = prop, seed, tier
 				t = mt
@@ -646,6 +671,12 @@ func runParent(prop, tier string) int {
 			confirmed = confirmHang(v.bin, v.replay)
 		} else {
 			confirmed = strings.Contains(outs, "REPLAY-SIGNATURE "+s+"\n")
+		}
+		if !confirmed && strings.Contains(s, ".hang|") {
+			// a run that ran out of time in a worker but finishes when replayed alone in a fresh process was
+			// slowed down by the load of the machine; a genuine hang (deadlock, endless loop) replays
+			fmt.Printf("HANG-NOT-REPRODUCED property=%s signature=%q replay=%s: finished normally in a fresh process, ignored\n", prop, s, v.replay)
+			continue
 		}
 		if !confirmed && strings.Contains(s, ".slow|") {
 			// a time budget that is not exceeded again in a fresh process is not a finding (DESIGN §4 rule 5)
